@@ -429,6 +429,10 @@ func (r *replacer) getSubstitution(key string) string {
 		if r.responseRecorder == nil {
 			return r.emptyValue
 		}
+		if r.request.Method == http.MethodHead {
+			// the server accepts but never sends the body of a response to HEAD
+			return "0"
+		}
 		return strconv.Itoa(r.responseRecorder.size)
 	case "{latency}":
 		if r.responseRecorder == nil {
